@@ -48,6 +48,11 @@ for pid, tx in EXTRA3.items():
     if pid in CLAIMS:
         CLAIMS[pid]['text'] += tx
 
+EXTRA4 = {'C04': ' R04.8: every call lowering in cl.callEx goes through emitDo (defers inside range-over-func bodies reach the enclosing frame).', 'C08': " R08.9: descriptor field offsets come from the raw LLVM struct; a struct's alignment is the maximum over all fields, blank ones included.", 'C12': ' R12.4: the package kinds at or above the no-init threshold are exactly the kinds without an initialiser.', 'C13': ' R13.12: every field of the cached package metadata is restored when the manifest is parsed.', 'C16': ' R16.7: a path is outside the package directory only for ".." or a ".."+separator prefix.', 'C18': " R18.8: every value shipped target descriptions use for a field is accepted by validateConfig's enumeration of that field.", 'C19': ' R19.8: slices passed to the Python C API are (data, len); the after-init insertion point is anchored on the init-guard store.', 'C20': ' R20.6: the staging directory is wiped recursively before use and a failing external tar is always an error.'}
+for pid, tx in EXTRA4.items():
+    if pid in CLAIMS:
+        CLAIMS[pid]['text'] += tx
+
 props = [json.loads(l)['id'] for l in open(os.path.join(VERIF, 'properties.jsonl'))]
 registered = subprocess.run([os.path.join(VERIF, 'bin', 'llgoverif'), 'list'], capture_output=True, text=True).stdout.split()
 
